@@ -8,7 +8,8 @@ def run(tier, replay=None):
     if replay:
         return semcheck.replay_file(ck, replay, cmp=("value", "residue"))
     fams, pairs = props.c08_families(tier, vlib.seed())
-    semcheck.run_families(ck, fams, props.c08_nontrivial)
+    vs = semcheck.run_families(ck, fams, props.c08_nontrivial)
+    semcheck.binding_selftest(ck, vs)
     # spec theorem (twin): after a failing item, the specified observations equal those of the session where the item
     # is replaced by the assignments it completed.  A failure here is a defect of the specification (exit 2).
     sample = pairs if tier == "thorough" else pairs[:40]
